@@ -1,6 +1,6 @@
 (** Property C17 — the published interface agrees with the IR it ships. *)
 From stdpp Require Import sorting.
-From Tx3 Require Import Base Tir Reduce Surface Lower Analyze Front_proofs.
+From Tx3 Require Import Base Tir Reduce Surface Lower Analyze Front_proofs Lower_names.
 
 (** when the analyzer's duplicate check passes, distinct declared argument names (environment
     values, parties, parameters) never share a key of the argument map *)
@@ -19,6 +19,14 @@ Proof. exact to_lower_idem. Qed.
 Theorem C17_reported_params_sorted : forall t, StronglySorted (@key_lt ty) (find_params t).
 Proof. intros t. apply bt_of_list_sorted. Qed.
 
+(** every argument key that the IR of a lowered transaction requires is the lower-cased
+    spelling of a declared environment value, party or parameter - which is what the interface
+    publishes: the IR never asks for a name the interface does not carry *)
+Theorem C17_required_keys_are_declared : forall p t ir, lower_tx p t = Ok ir ->
+  forall k, k ∈ map fst (tx_params ir) -> exists n, n ∈ declared p t /\ k = to_lower n.
+Proof. exact lowered_params_are_declared. Qed.
+
+Print Assumptions C17_required_keys_are_declared.
 Print Assumptions C17_argument_keys_do_not_collide.
 Print Assumptions C17_lowercase_idempotent.
 Print Assumptions C17_reported_params_sorted.
